@@ -13,7 +13,10 @@ EXPLANATION = ("Registries. R1 lock discipline: every access to LoggerManager::_
                "emptiness check of C07.R1d); when an invalid logger must be kept, the pending flag is re-armed; remove_logger "
                "invalidates before raising the flag. R4: remove_logger_blocking enqueues the request (retried), then invalidates, "
                "then waits on the flag whose address it sent; the backend raises a removal flag only after the logger was erased and "
-               "unused sinks were pruned, and only for names reported as removed.")
+               "unused sinks were pruned, and only for names reported as removed. R5: the sink registry holds sinks weakly, loggers "
+               "strongly; an entry is pruned exactly when expired; destroying a file sink closes its file. R6 (sorted registries, sibling "
+               "agreement): insert and lookup order the registry identically, and a re-created sink is inserted in front of an expired "
+               "entry of the same name because the lookup inspects the first entry of a name.")
 NOT_DECIDED = ("Use-after-free over all interleavings of user log calls with removal (the API contract forbids logging after "
                "removal), destruction order of shared sinks as behaviour.")
 ASSUMPTIONS = ["user code does not log through a logger after removing it (documented contract)"]
@@ -67,6 +70,7 @@ def run(ctx):
         r3(ctx, facts, cfg)
         r4(ctx, facts, cfg)
         r5(ctx, facts, cfg)
+        r6(ctx, facts, cfg)
 
 
 def r1(ctx, facts, cfg):
@@ -324,3 +328,71 @@ def r5(ctx, facts, cfg):
         not cg.exists_path([cg.entry_node], [cg.exit_node], avoid_nodes=fc, avoid_edges=nb)
     ctx.ob("C17.R5e", "FileSink::close_file:fclose-and-forget", ok,
            "an open file is closed with fclose and the handle forgotten on every path (only 'no file open' skips it)", fn=c)
+
+
+def _rel_op(callee):
+    """relational operator named by an operator-function callee ('std::operator<<char, ...>' is operator< of a template)"""
+    import re
+    m = re.search(r"operator([<>=]+)(.*)$", callee)
+    if not m:
+        return None
+    run, rest = m.group(1), m.group(2)
+    if rest and run.endswith("<") and len(run) > 1:
+        run = run[:-1]  # the last '<' opens the template argument list
+    return run if run in ("<", ">", "<=", ">=") else None
+
+
+def _bound_search(facts, f, cfg, field):
+    """(algorithm, comparator-op, compared-member) of the sorted-position search over this->field in f"""
+    calls = [c for c in f.calls(r"^std::(lower_bound|upper_bound|equal_range|find_if|find|partition_point|binary_search)\b")
+             if any(is_this_field(x, field) for x in walk(c))]
+    if len(calls) != 1:
+        raise AnalysisBroken("%s: expected one position search over %s, found %d" % (f.short, field, len(calls)))
+    c = calls[0]
+    algo = short(c["callee"]).split("::")[-1].split("<")[0]
+    lam = [x for x in facts.fns if x.config == cfg and x.rec.get("parent") == f.name]
+    ops = []
+    for l in lam:
+        ps = [p_["did"] for p_ in l.rec.get("params", [])]
+        if len(ps) != 2:
+            continue
+        for r in l.g.return_nodes():
+            v = strip(l.g.node_ast(r).get("val"), casts=True)
+            if isnode(v) and v["k"] == "CXXOperatorCallExpr" and _rel_op(v["callee"]):
+                op, lhs, rhs = _rel_op(v["callee"]), v["args"][0], v["args"][1]
+            elif isnode(v) and v["k"] == "BinaryOperator" and v["op"] in ("<", ">", "<=", ">="):
+                op, lhs, rhs = v["op"], v["lhs"], v["rhs"]
+            else:
+                continue
+            side = lambda e: [i for i in (0, 1) if any(x["k"] == "DeclRefExpr" and x.get("did") == ps[i] for x in walk(e))]
+            if side(lhs) == [0] and side(rhs) == [1]:
+                pass
+            elif side(lhs) == [1] and side(rhs) == [0]:
+                op = {"<": ">", ">": "<", "<=": ">=", ">=": "<="}[op]
+            else:
+                continue
+            # comp(first, second) == first <op> second
+            ops.append("ascending" if op == "<" else "descending" if op == ">" else "non-strict " + op)
+    return algo, ops
+
+
+def r6(ctx, facts, cfg):
+    """sorted registries: the insert position is the position the lookup inspects"""
+    for cls, ins, fnd, field, stale in (("quill::detail::SinkManager", "_insert_sink", "_find_sink", "_sinks", True),
+                                        ("quill::detail::LoggerManager", "_insert_logger", "_find_logger", "_loggers", False)):
+        fi = facts.need(cls + "::" + ins, cfg)[0]
+        ff = facts.need(cls + "::" + fnd, cfg)[0]
+        ai, oi = _bound_search(facts, fi, cfg, field)
+        af, of = _bound_search(facts, ff, cfg, field)
+        if not oi or not of:
+            raise AnalysisBroken("%s: comparator of the position search not recognised" % cls)
+        ctx.ob("C17.R6a", "%s:%s/%s:same-order" % (cls.split("::")[-1], ins, fnd), oi == of,
+               "insert and lookup search the sorted registry with the same ordering (insert: %s, lookup: %s); a lookup that orders "
+               "differently misses entries that are present and the same name is created twice" % (oi, of), fn=fi)
+        if stale:
+            if ai not in ("lower_bound", "upper_bound") or af not in ("lower_bound", "upper_bound"):
+                raise AnalysisBroken("%s: position search %s/%s has a shape no accepted idiom covers" % (cls, ai, af))
+            ctx.ob("C17.R6b", "%s:%s/%s:fresh-entry-shadows-stale" % (cls.split("::")[-1], ins, fnd), ai == af == "lower_bound",
+                   "the registry may still hold an expired entry of the same name (the user dropped the last reference after the last "
+                   "pruning); the lookup inspects the first entry of that name (%s), so a re-created sink must be inserted in front of it "
+                   "(%s) — otherwise every later lookup sees the expired entry and creates yet another sink on the same file" % (af, ai), fn=fi)
